@@ -8,6 +8,8 @@ import (
 	"flag"
 	"fmt"
 	"os"
+
+	"verifharness/internal/scratch"
 )
 
 type runCfg struct {
@@ -36,6 +38,8 @@ func main() {
 	fs.BoolVar(&c.Worker, "worker", false, "serve case lines from stdin (internal)")
 	fs.Parse(os.Args[2:])
 	c.Thorough = c.Tier == "thorough"
+	// template coverage of the corpus (evidence only): not for replays, translators and workers
+	scratch.Coverage = c.Cases == "" && !c.Worker && len(name) == 3 && name[0] == 'C'
 	cmd, ok := commands[name]
 	if !ok {
 		fmt.Fprintf(os.Stderr, "unknown command %q\n", name)
